@@ -26,7 +26,7 @@ def pair_allowed(pt: int, lt: int) -> bool:
 
 NAMES = (8, 9, 4000, 4096, 5000)
 OTHERS = (0, 1, 150, 4096, 5000)
-STREAM_NAMES = ("", "a", "é✓", "n" * 9, "x" * 200)
+STREAM_NAMES = ("", "a", "é✓", "n" * 9, "x" * 200, "Cafe\u0301 \u212b")  # (the last: not NFC)
 ST3 = (I("http://a/s"), I("http://a/p"), L("o"))
 ST4 = (*ST3, DEFAULT)
 
